@@ -21,7 +21,10 @@ first_miss = {"C05-D": "missed at first: reception was only checked by object id
               "C10-F": "undecided at first (bisect not modelled, history list opaque) → bisect models, Scanner also with a known history of 2 / 3 ids",
               "C14-E": "missed at first: the generated dictionaries had no REAL defaults → float defaults / values in both EDS generators",
               "C19-E": "missed at first: the drive always displayed mode 0 beforehand → any defined mode displayed beforehand",
-              "C20-E": "missed at first: the physical-view stand-in used float operands only → integer physical values with integer factors added"}
+              "C20-E": "missed at first: the physical-view stand-in used float operands only → integer physical values with integer factors added",
+              "C01-G": "missed at first: expedited pieces were contracted for two pieces only → every composition of the size into 2..4 pieces",
+              "C15-H": "missed at first: the received frame always carried a later timestamp → a frame with the previous frame's timestamp added",
+              "C17-H": "missed at first: the boot-up transition of the NMT slave was contracted only for its frames → HeartbeatAtBootUp (period of object 0x1017 now, any cached value)"}
 n_det = n_app = 0
 for sid in sorted(R):
     r = R[sid]
@@ -42,8 +45,9 @@ for sid in sorted(R):
         note += " — " + first_miss[sid]
     rows.append("| %s | %s | %s | %s | %s |" % (sid, summ, need, note, "; ".join(o.split(":")[-1][:90] for o in obl)))
 head = ("Round 1 (`-A`, `-B`, written against the pinned commit), round 2 (`-C`, `-D`, written against the repaired tree, asked to "
-        "look beyond the central function) and round 3 (`-E`, `-F`, against the final repaired tree, asked for subtle changes in rarely "
-        "exercised paths). Applicable changes: %d, caught by the targeted check(s): %d.\n\n" % (n_app, n_det))
+        "look beyond the central function) round 3 (`-E`, `-F`, asked for subtle changes in rarely exercised paths) and round 4 (`-G`, `-H`, ten properties, asked to "
+        "look at helpers, constructors, error and clean-up paths and state that survives between calls; written against the final "
+        "repaired tree). Applicable changes: %d, caught by the targeted check(s): %d.\n\n" % (n_app, n_det))
 txt = open("DESIGN.md").read()
 block = "<!-- SEEDED-TABLE-BEGIN -->\n" + head + "\n".join(rows) + "\n<!-- SEEDED-TABLE-END -->"
 if "<!-- SEEDED-TABLE-BEGIN -->" in txt:
